@@ -26,9 +26,16 @@ ASSIGN_OPS = {"=", "+=", "-=", "*=", "/=", "|=", "&=", "^="}
 
 
 class Reset:
-    def __init__(self, prog, tracked_classes, visitors=None):
+    def __init__(self, prog, tracked_classes, visitors=None,
+                 scope_prefixes=(), scope_files=()):
         self.prog = prog
         self.tracked = set(tracked_classes)
+        # functions followed transitively: methods of the tracked classes
+        # and of classes whose name starts with one of scope_prefixes (e.g.
+        # the generated parser); other callees cannot touch the tracked
+        # members except through those methods
+        self.scope_prefixes = tuple(scope_prefixes)
+        self.scope_files = tuple(scope_files)
         self.vis = visitors
         self._reads = {}
         self._mw = {}
@@ -61,7 +68,16 @@ class Reset:
         if not f or not f.get("body") or f.get("dependent") \
                 or f.get("tk") == "pattern":
             return None
-        return f
+        c = f.get("cls") or ""
+        if c in self.tracked or (self.scope_prefixes
+                                 and c.startswith(self.scope_prefixes)):
+            return f
+        if "#lambda" in u:
+            return f
+        if self.scope_files and any(x in f.get("file", "")
+                                    for x in self.scope_files):
+            return f
+        return None
 
     # ------------------------------------------------------------ targets
     def targets(self, f, n):
@@ -114,12 +130,16 @@ class Reset:
                     ms |= loc_guard[x["n"]]
             return ms
 
+        cur_w = [set()]             # members definitely written so far
+
         def add(m, guards):
-            if m in own_writes_first:
+            if m in own_writes_first or m in cur_w[0]:
                 return
             out.setdefault(m, set()).add(frozenset(guards - {m}))
 
         def visit(s, guards):
+            """statement order matters: a member read after this function
+            has definitely written it is not a read of incoming state"""
             if not isinstance(s, dict):
                 return
             k = s.get("k")
@@ -130,14 +150,20 @@ class Reset:
                         if ms:
                             loc_guard[v["n"]] = ms
                         expr(v["i"], guards)
+                        note_writes(v["i"])
                 return
             if k == "if":
                 if s.get("init"):
                     visit(s["init"], guards)
                 expr(s.get("c"), guards)
                 g2 = guards | members_in(s.get("c") or {})
+                w0 = set(cur_w[0])
                 visit(s.get("t"), g2)
+                wt = cur_w[0]
+                cur_w[0] = set(w0)
                 visit(s.get("e"), g2)
+                we = cur_w[0]
+                cur_w[0] = wt & we
                 return
             if k in ("for", "while", "do", "forr"):
                 if s.get("init"):
@@ -147,19 +173,38 @@ class Reset:
                         expr(s[key], guards)
                 g2 = guards | (members_in(s.get("c")) if s.get("c")
                                else set())
+                w0 = set(cur_w[0])
                 visit(s.get("b"), g2)
+                cur_w[0] = w0
                 return
-            if k in ("{}", "switch", "case", "default", "try", "label"):
+            if k in ("{}", "switch", "case", "default", "label"):
                 for c in children(s):
                     visit(c, guards)
+                return
+            if k == "try":
+                w0 = set(cur_w[0])
+                visit(s.get("b"), guards)
                 for h in s.get("h", ()):
+                    cur_w[0] = set(w0)
                     visit(h.get("b"), guards)
+                cur_w[0] = w0
                 return
             if k in ("expr", "return"):
                 expr(s.get("e"), guards)
+                note_writes(s.get("e"))
                 return
             for c in children(s):
                 visit(c, guards)
+
+        def note_writes(e):
+            if not isinstance(e, dict):
+                return
+            cur_w[0] |= self.stmt_writes(e)
+            for n in walk(e):
+                if n.get("k") in ("call", "mcall", "ctor") and n.get("u") \
+                        and not n.get("v"):
+                    for t in self.targets(f, n):
+                        cur_w[0] |= self.must_writes(t)
 
         def expr(e, guards, lhs=False):
             if not isinstance(e, dict):
